@@ -138,6 +138,40 @@ def tyof(a):
     return _tyof(a)
 
 
+_at = None
+def at(seq, i):
+    """pattern-friendly element access for quantified specifications: at(s, i) == s[i] for 0 <= i < |s| (bridging axiom in
+    engine.below_axioms); z3 rewrites the native seq.nth, which makes it unusable as an E-matching pattern"""
+    global _at
+    if _at is None:
+        _at = z3.Function('at', SeqP(), z3.IntSort(), PyObj())
+    if isinstance(i, int):
+        i = z3.IntVal(i)
+    return _at(seq, i)
+
+
+def at_axiom():
+    s = z3.Const('as', SeqP())
+    i = z3.Int('ai')
+    return z3.ForAll([s, i], z3.Implies(z3.And(i >= 0, i < z3.Length(s)), at(s, i) == s[i]), patterns=[at(s, i)])
+
+
+def forall(vs, body, patterns=None):
+    """ForAll with E-matching patterns; patterns that z3 rejects (they contain ite/connectives after a ghost update) are dropped
+    one by one — in goal position the quantifier is skolemised anyway"""
+    if patterns:
+        good = []
+        for p in patterns:
+            try:
+                z3.ForAll(vs, body, patterns=[p])
+                good.append(p)
+            except z3.Z3Exception:
+                pass
+        if good:
+            return z3.ForAll(vs, body, patterns=good)
+    return z3.ForAll(vs, body)
+
+
 def type_id(name):
     """Stable small integer for a dynamic class name ('list', 'dict', 'set', or a user class)."""
     if name not in _TYPE_IDS:
